@@ -41,6 +41,7 @@ type Op struct {
 	Same    bool     `json:"same,omitempty"`    // pub: the payload of the previous publish on this topic again (only QoS and flags differ)
 	Dup     bool     `json:"dup,omitempty"`     // pub (QoS > 0): the PUBLISH carries DUP=1 (a retransmission whose first copy was lost)
 	EOFData bool     `json:"eofdata,omitempty"` // connect: transport may return last bytes together with EOF
+	Pipe    int      `json:"pipe,omitempty"`    // connect: the CONNECT is written together with what follows, without waiting for the CONNACK: 1 = a PINGREQ, 2 = the DISCONNECT (the whole life of the connection in one write)
 	Refuse  bool     `json:"refuse,omitempty"`  // isub: the callback returns an error for what it is handed during the Subscribe call; the application then unsubscribes
 }
 
@@ -54,6 +55,9 @@ type Plan struct {
 	// InprocErr: the in-process subscribers' callbacks return an error for every
 	// live delivery (after taking it); the other subscribers' copies are not affected.
 	InprocErr bool `json:"inproc_err,omitempty"`
+	// PipeConnect: every connection the plan opens implicitly writes its CONNECT
+	// and a PINGREQ in one piece.
+	PipeConnect bool `json:"pipe_connect,omitempty"`
 }
 
 // payload builds the message body: the first bytes name the message, the
@@ -429,9 +433,15 @@ func (e *exec) ensureConnected(ci int) bool {
 	return e.conns[ci] != nil
 }
 
-func (e *exec) doConnect(ci int, clean bool, w *Will) { e.doConnectOpt(ci, clean, w, false) }
+func (e *exec) doConnect(ci int, clean bool, w *Will) {
+	pipe := 0
+	if e.p.PipeConnect {
+		pipe = 1
+	}
+	e.doConnectOpt(ci, clean, w, false, pipe)
+}
 
-func (e *exec) doConnectOpt(ci int, clean bool, w *Will, eofData bool) {
+func (e *exec) doConnectOpt(ci int, clean bool, w *Will, eofData bool, pipe int) {
 	if e.conns[ci] != nil {
 		e.doEnd(ci, "close")
 		if e.abort {
@@ -459,7 +469,26 @@ func (e *exec) doConnectOpt(ci int, clean bool, w *Will, eofData bool) {
 		e.cps = map[int][]byte{}
 	}
 	e.cps[ci] = codec.Encode(cp)
-	ack, err := c.Connect(cp)
+	var ack *codec.Packet
+	var err error
+	switch pipe {
+	case 1, 2:
+		// the client does not wait for the CONNACK (MQTT 3.1.4 allows that): CONNECT
+		// and the next packet reach the broker in one piece
+		next := []byte{0xC0, 0}
+		if pipe == 2 {
+			next = []byte{0xE0, 0}
+		}
+		if err = c.SendRaw(append(codec.Encode(cp), next...)); err == nil {
+			var got []wire.Rx
+			if got, err = c.WaitFor(func(p *codec.Packet) bool { return p.Type == codec.CONNACK }, wire.DefaultWait); err == nil {
+				ack = got[len(got)-1].P
+			}
+		}
+		e.class(fmt.Sprintf("connect-pipelined-%d", pipe))
+	default:
+		ack, err = c.Connect(cp)
+	}
 	if err != nil {
 		if err == wire.ErrTimeout {
 			e.hang(fmt.Sprintf("client %d got no CONNACK", ci))
@@ -488,6 +517,21 @@ func (e *exec) doConnectOpt(ci int, clean bool, w *Will, eofData bool) {
 	}
 	if !clean {
 		e.class("persistent-connect")
+	}
+	if pipe == 2 {
+		// the DISCONNECT was in the same write as the CONNECT
+		e.doEnd(ci, "disconnect-sent")
+		return
+	}
+	if pipe == 1 {
+		if _, err := c.WaitFor(func(p *codec.Packet) bool { return p.Type == codec.PINGRESP }, wire.DefaultWait); err != nil {
+			if err == wire.ErrTimeout {
+				e.hang(fmt.Sprintf("client %d wrote CONNECT and PINGREQ in one piece, was accepted, and got no PINGRESP", ci))
+			} else {
+				e.report(dLive, "-", "client %d wrote CONNECT and PINGREQ in one piece and was accepted; the connection was closed instead of the PINGREQ being answered: %v", ci, err)
+			}
+			return
+		}
 	}
 	// first request answered: restored subscriptions are active from here on
 	if rx, ok := e.barrier(ci, "first request after CONNACK"); ok {
@@ -606,6 +650,11 @@ func (e *exec) doEnd(ci int, how string) {
 	case "garbage-sent":
 		// the offending packet was sent already; the broker is closing the connection
 		how = "garbage"
+	case "disconnect-sent":
+		// the DISCONNECT was sent already (in the same write as the CONNECT); the
+		// client hangs up as clients do after a DISCONNECT
+		c.Close()
+		how = "disconnect-close"
 	case "garbage":
 		c.SendRaw([]byte{0xF0, 0x00}) // reserved packet type 15
 	default:
@@ -1285,7 +1334,7 @@ func runPlan(p Plan, known func(string) bool) outcome {
 		}
 		switch op.K {
 		case "connect":
-			e.doConnectOpt(op.C, op.Clean, op.Will, op.EOFData)
+			e.doConnectOpt(op.C, op.Clean, op.Will, op.EOFData, op.Pipe)
 		case "sub":
 			e.doSubscribe(op)
 		case "unsub":
